@@ -73,7 +73,8 @@ type theirQuestion struct {
 	paT        *theirQuestion // ... of this question of the Conn (nil if it was not open)
 	paXform    []uint16
 	fwd        *myQuestion    // loop-back: the call the peer sent to the Conn on behalf of this one
-	loopback   *connExport    // the peer's Return named this export of the Conn (receiverHosted) in result pointer 0
+	loopback   *connExport    // the peer's Return named this export of the Conn (receiverHosted) in result pointer loopPath
+	loopPath   uint16
 }
 
 // connExport is an export of the Conn as seen by the peer.
@@ -612,6 +613,13 @@ func (p *peer) moveReturn() bool {
 			p.pins[e.id]++
 			q.retCaps = []capDesc{{kind: "receiverHosted", id: e.id}}
 			s.Probe("return_names_conn_export")
+			if p.r.deferEcho && s.Chance("loopback-second-pointer", 1, 2) {
+				// pointer 0 holds a capability of the peer, pointer 1 the Conn's own export: calls
+				// pipelined through pointer 0 stay with the peer, those through pointer 1 are reflected
+				q.loopPath = 1
+				q.retCaps = []capDesc{p.newCapForConn(), {kind: "receiverHosted", id: e.id}}
+				s.Probe("return_names_conn_export_in_second_pointer")
+			}
 		}
 		if q.finishSeen && q.releaseRes {
 			// the Conn already finished this question with releaseResultCaps: capabilities in a late
@@ -651,13 +659,21 @@ func (p *peer) moveReturn() bool {
 		}))
 		if q.loopback != nil {
 			for _, tq := range p.theirOrder {
-				if tq.isPA && tq.paT == q && !tq.returnSent && tq.fwd == nil && !tq.mustFail {
+				if tq.isPA && tq.paT == q && !tq.returnSent && tq.fwd == nil && !tq.mustFail && p.onLoopPath(tq, q) {
 					p.forward(tq, q)
 				}
 			}
 		}
 	}
 	return true
+}
+
+// onLoopPath: tq is pipelined on t through the pointer in which t's results name the Conn's own
+// export.  (When that is pointer 1, calls through pointer 0 address the peer's own capability and
+// are answered by the peer like any other call; with the loop-back in pointer 0 every path is
+// handed to forward, which fails the calls whose path holds no capability - as before.)
+func (p *peer) onLoopPath(tq, t *theirQuestion) bool {
+	return t.loopPath == 0 || (len(tq.paXform) == 1 && tq.paXform[0] == t.loopPath)
 }
 
 func (p *peer) pinned(id uint32) int {
@@ -672,7 +688,7 @@ func (p *peer) pinned(id uint32) int {
 func (p *peer) forward(tq, t *theirQuestion) {
 	s := p.r.s
 	e := t.loopback
-	if len(tq.paXform) != 1 || tq.paXform[0] != 0 || e.refs <= 0 {
+	if len(tq.paXform) != 1 || tq.paXform[0] != t.loopPath || e.refs <= 0 {
 		tq.mustFail = true // the path holds no capability
 		return
 	}
@@ -886,7 +902,7 @@ func (p *peer) process(data []byte) {
 			p.r.mfail("embargo_broken", "rpc.go:(*Conn).handleDisembargo", fmt.Sprintf("the Conn reflected the pipelined call with token %d after it had echoed Disembargo %d, which was sent after that call", q.token, eid))
 			return
 		}
-		if q.isPA && q.paT != nil && q.paT.loopback != nil && !q.mustFail {
+		if q.isPA && q.paT != nil && q.paT.loopback != nil && !q.mustFail && p.onLoopPath(q, q.paT) {
 			p.forward(q, q.paT)
 		}
 	case rpccp.Message_Which_return:
@@ -1136,6 +1152,18 @@ func (p *peer) handleDisembargo(d rpccp.Disembargo) {
 		if t == nil || t.loopback == nil {
 			p.r.mfail("disembargo_target", "rpc.go:(*Conn).handleReturn", fmt.Sprintf("senderLoopback disembargo targets question %d, which the peer did not answer with one of the Conn's own capabilities", pa.QuestionId()))
 			return
+		}
+		if ops, err := pa.Transform(); err == nil {
+			var path []uint16
+			for i := 0; i < ops.Len(); i++ {
+				if ops.At(i).Which() == rpccp.PromisedAnswer_Op_Which_getPointerField {
+					path = append(path, ops.At(i).GetPointerField())
+				}
+			}
+			if len(path) != 1 || path[0] != t.loopPath {
+				p.r.mfail("disembargo_target", "rpc.go:(*Conn).handleReturn", fmt.Sprintf("senderLoopback disembargo for question %d addresses result path %v, but the Conn's own capability is in pointer %d", pa.QuestionId(), path, t.loopPath))
+				return
+			}
 		}
 		s.Logf("conn -> peer: Disembargo senderLoopback id=%d target=pa:%d", id, pa.QuestionId())
 		expID := t.loopback.id
